@@ -385,6 +385,115 @@ theorem C17_label_cex : ¬ C17_label_statement := by
   revert h2
   decide +kernel
 
+/-! ### Full statements with the pinned letters numeral (round 6)
+
+The letters numeral of the pinned code is not Table 159's (`alpha_cex`), but it is determined
+completely: it is THE bijective base-26 numeral of the value.  With it the label of every page of
+every conforming tree — every style, every value — is characterised exactly. -/
+
+/-- For EVERY `n > 0` the code's letters numeral is characterised: `t` is returned iff `t` consists of
+lowercase letters and reads `n` in bijective base 26. -/
+theorem alpha_characterised (n : Nat) (h : 0 < n) (t : Text) :
+    formatIntAlpha (n : Int) = .ok t ↔ isBijNumeral t (n : Int) := by
+  have hfa : formatIntAlpha (n : Int) = .ok (alphaLoop n n []) := by
+    simp [formatIntAlpha]; omega
+  constructor
+  · intro ht
+    rw [hfa] at ht
+    simp only [Except.ok.injEq] at ht
+    subst ht
+    refine ⟨alphaLoop_letters n n [] (by simp), ?_⟩
+    unfold alphaValue
+    rw [alphaLoop_value n n [] (Nat.le_refl n)]
+    rfl
+  · intro ⟨hl, hv⟩
+    have hv' : alphaValue t = n := by omega
+    have := alphaLoop_of_value t.reverse (by simpa using hl) n [] (by simp [hv'])
+    simp only [List.reverse_reverse, hv', List.append_nil] at this
+    rw [hfa, this]
+
+/-- Such a numeral is unique (so `isBijNumeral · v` names one string). -/
+theorem bijNumeral_unique (t t' : Text) (v : Int) (h : isBijNumeral t v) (h' : isBijNumeral t' v) : t = t' := by
+  have hv : alphaValue t = alphaValue t' := by have := h.2; have := h'.2; omega
+  have a := alphaLoop_of_value t.reverse (by simpa using h.1) (alphaValue t) [] (by simp)
+  have b := alphaLoop_of_value t'.reverse (by simpa using h'.1) (alphaValue t) [] (by simp [hv])
+  simp only [List.reverse_reverse, List.append_nil] at a b
+  rw [← hv] at b
+  rw [← a, ← b]
+
+/-- FULL numeral statement for the pinned code: wherever ISO 32000-1 defines a numeral (known style,
+positive value for roman and letters), `_format_page_label` returns normally — decimal and roman
+(any value ≥ 1) exactly as Table 159, letters as the unique bijective base-26 numeral. -/
+theorem numeral_full (style : Option Bytes) (v : Int) (h : (numeral style v).isSome = true) :
+    ∃ num, formatPageLabel v style = .ok num ∧ numeralPinned style v num := by
+  have hletters : 0 < v → ∃ t, formatIntAlpha v = .ok t ∧ isBijNumeral t v := by
+    intro h0
+    have hv : v = (v.toNat : Int) := by omega
+    refine ⟨alphaLoop v.toNat v.toNat [], ?_, ?_⟩
+    · simp [formatIntAlpha, h0]
+    · rw [hv]
+      exact (alpha_characterised v.toNat (by omega) _).mp (by simp [formatIntAlpha]; omega)
+  by_cases hA : style = some styleA
+  · subst hA
+    have h0 : 0 < v := by
+      by_cases h0 : 0 < v
+      · exact h0
+      · exfalso; revert h; simp [numeral, h0, styleA, styleD, styleR, styler]
+    obtain ⟨t, ht, hb⟩ := hletters h0
+    refine ⟨upper t, ?_, ?_⟩
+    · simp [formatPageLabel, ht, Except.map, styleA, styleD, styleR, styler]
+    · simp only [numeralPinned, if_true]
+      exact ⟨t, hb, rfl⟩
+  by_cases ha : style = some stylea
+  · subst ha
+    have h0 : 0 < v := by
+      by_cases h0 : 0 < v
+      · exact h0
+      · exfalso; revert h; simp [numeral, h0, stylea, styleA, styleD, styleR, styler]
+    obtain ⟨t, ht, hb⟩ := hletters h0
+    refine ⟨t, ?_, ?_⟩
+    · simp [formatPageLabel, ht, stylea, styleA, styleD, styleR, styler]
+    · simp only [numeralPinned, hA, if_false, if_true]
+      exact hb
+  · obtain ⟨num, hnum⟩ := Option.isSome_iff_exists.mp h
+    refine ⟨num, numeral_partial style v num hnum (fun hc => ?_), ?_⟩
+    · rcases hc with hc | hc
+      · exact absurd hc hA
+      · exact absurd hc ha
+    · simp only [numeralPinned, hA, ha, if_false]
+      exact hnum
+
+/-- FULL page-label statement for the pinned code: on every conforming tree, for EVERY page whose
+label ISO 32000-1 12.4.2 defines (valid prefix, known style, positive value for roman/letters — no
+bound on values), the generator yields prefix ++ numeral with the numeral of `numeral_full`: the
+ISO label for styles D/R/r/none, and for A/a the ISO label with the letters numeral replaced by the
+unique bijective base-26 one (the open finding, and nothing else). -/
+theorem C17_label_full (t : NumTree LabelDict) (n i : Nat) (hi : i < n)
+    (hasc : ascending ((flatten t).map (·.1)) = true)
+    (h0 : (flatten t).head?.map (·.1) = some 0)
+    (start : Int) (d : LabelDict) (hr : rangeOf (flatten t) (i : Int) = some (start, d))
+    (pre : Text) (hpre : Spec.Labels.text (d.pfx.getD []) = some pre)
+    (hnum : (numeral d.style (d.st.getD 1 + ((i : Int) - start))).isSome = true) :
+    ∃ num, (Labels.labels t n)[i]? = some (.ok (pre ++ num))
+      ∧ numeralPinned d.style (d.st.getD 1 + ((i : Int) - start)) num := by
+  obtain ⟨num, hf, hp⟩ := numeral_full d.style _ hnum
+  refine ⟨num, ?_, hp⟩
+  rw [C17_label_range t n i hi hasc h0 start d hr]
+  have h2 := decode_text_spec _ pre hpre
+  simp [labelOf, hf, h2, Except.map]
+
+/-- Non-vacuity: letters past 26 and roman past 3999 in one tree; the numerals are the pinned ones. -/
+example :
+    let t : NumTree LabelDict := .node []
+      [.node [(0, { style := some stylea, st := some 27 })] [],
+       .node [(2, { style := some styleR, st := some 3999 })] []]
+    ascending ((flatten t).map (·.1)) = true
+    ∧ (flatten t).head?.map (·.1) = some 0
+    ∧ (Labels.labels t 4).map Except.toOption =
+        [some [97, 97], some [97, 98], some [77, 77, 77, 67, 77, 88, 67, 73, 88], some [77, 77, 77, 77]] := by
+  decide +kernel
+example : isBijNumeral [97, 98] 28 := ⟨by decide, by decide⟩
+
 /-- Non-vacuity: a two-level tree with three ranges (roman front matter, decimal body with a
 prefix, letters appendix) satisfies the hypotheses, and the model produces the ISO labels. -/
 example :
